@@ -1665,6 +1665,24 @@ func (w *vpWorld) generate(o vpGenOpts) {
 				continue
 			}
 			reg.outs = []vpOut{out}
+			if form == "inst" && out.group == "" && rng.Intn(2) == 0 {
+				// a value registered under one or two interface types (As): one service, several identities
+				for _, it := range rng.Perm(len(vpIfaces))[:1+rng.Intn(2)] {
+					if out.name == "" && usedIface[vpIfaces[it]] {
+						continue
+					}
+					if out.name == "" {
+						usedIface[vpIfaces[it]] = true
+					}
+					reg.outs = append(reg.outs, vpOut{typ: vpIfaces[it], slot: out.slot, name: out.name, alias: true})
+				}
+				if len(reg.outs) > 1 {
+					reg.outs[0].hidden = true
+					if reg.outs[0].name == "" {
+						usedPlain[reg.outs[0].typ] = false
+					}
+				}
+			}
 		case "alias":
 			out, ok := newOut()
 			if !ok || out.group != "" {
